@@ -13,7 +13,6 @@ import (
 	"log"
 	"os"
 	"path/filepath"
-	"regexp"
 	"runtime"
 	"runtime/pprof"
 	"strings"
@@ -473,11 +472,10 @@ func (p *program) assignCheckerParams() error {
 	return nil
 }
 
-var generatedFileCommentRE = regexp.MustCompile("Code generated .* DO NOT EDIT.")
-
 func (p *program) isGenerated(f *ast.File) bool {
-	return len(f.Comments) != 0 &&
-		generatedFileCommentRE.MatchString(f.Comments[0].Text())
+	// Follows https://go.dev/s/generatedcode: a line comment
+	// "// Code generated ... DO NOT EDIT." anywhere before the package clause.
+	return ast.IsGenerated(f)
 }
 
 func (p *program) getFilename(f *ast.File) string {
